@@ -2,21 +2,28 @@ import BddVerif.Model.Count
 import BddVerif.Gen.OpTables
 /-!
 Executable model of `src/_impl_bdd_partial_valuation.rs`, of the conversions / `extends` of
-`src/_impl_bdd_valuation.rs` and of the five comparators of `src/_impl_bdd/_impl_sort.rs`.
+`src/_impl_bdd_valuation.rs` (namespace `B.Val`) and of the five comparators of
+`src/_impl_bdd/_impl_sort.rs` (namespace `B.Cmp`). Nothing is declared directly in `B`.
 
-* `BddPartialValuation(Vec<Option<bool>>)` is `PartialVal := List (Option Bool)`; a `BddVariable(u16)` is a
+* `BddPartialValuation(Vec<Option<bool>>)` is `Val.PartialVal := List (Option Bool)`; a `BddVariable(u16)` is a
   `Nat` index (the theorems need no bound on it except where the code itself casts, see `u16`).
-* `BddValuation(Vec<bool>)` is `TotalVal := List Bool`.
-* `len() as u16` (in `BddValuation::num_vars`, `BddPartialValuation::extends`, `TryFrom`) is modelled
-  as written: `u16 n = n % 65536`. A partial valuation that fixes `BddVariable(65535)` has a vector of
-  65 536 cells and the cast yields 0; the theorems carry the hypothesis `length ≤ 65535` (all variable
-  ids ≤ 65 534, which is what every `Bdd`/`BddVariableSet` admits) and the harness probes the boundary.
+* `BddValuation(Vec<bool>)` is `Val.TotalVal := List Bool`.
+* `x as u16` (in `BddValuation::num_vars`, in the loop of `BddPartialValuation::extends`) is modelled as
+  written: `u16 n = n % 65536`; `u16::try_from(len)` in `TryFrom` is the explicit `Err` branch. A partial
+  valuation that fixes `BddVariable(65535)` has a vector of 65 536 cells: before the repair a854d97 both
+  `extends` and `TryFrom` narrowed that length to 0 (finding of this check, now in corpus/C18.cases).
+  Vectors of more than 65 536 cells cannot be built by `set_value`/`unset_value` (ids are `u16`); the
+  theorems that mention an index cast carry the hypothesis `length ≤ 65536`.
+* The three functions that loop `for var_id in 0..n { … get_value(var_id) … }` are given twice: the
+  literal transcription (`extendsLoop`, `toTotalLoop`, `TotalVal.extendsLoop`, quadratic on lists) and a
+  linear list recursion (`extends_`, `toTotal`, `TotalVal.extends_`) used by the driver;
+  `Lemmas/Valuation.lean` proves them equal (`extends_eq_loop`, `toTotal_eq_loop`, `textends_eq_loop`).
 * `Hash::hash` is modelled by the exact sequence of `write_usize`/`write_u8` calls (`hashWrites`): equal
   sequences give equal hashes for *any* `Hasher` — that is the trusted contract; the harness observes
   real `DefaultHasher` values.
 * `Ordering` is Lean's `Ordering` (`lt`/`eq`/`gt` = `Less`/`Equal`/`Greater`).
 -/
-namespace B
+namespace B.Val
 
 abbrev PartialVal := List (Option Bool)
 abbrev TotalVal := List Bool
@@ -94,19 +101,41 @@ def hashFrom : Nat → PartialVal → List HashWrite
 /-- `Hash::hash`: for every fixed cell `write_usize(var); write_u8(value)` in increasing order -/
 def hashWrites (p : PartialVal) : List HashWrite := hashFrom 0 p
 
-/-- `BddPartialValuation::extends`: `for var_id in 0..(valuation.0.len() as u16)` -/
-def extends_ (self valuation : PartialVal) : Bool :=
-  (List.range (u16 valuation.length)).all fun x =>
+/-- `BddPartialValuation::extends`, literally: `for index in 0..valuation.0.len()` with
+    `var = BddVariable(index as u16)`, `if expected.is_some() && self.get_value(var) != expected { return false }`
+    (the length is no longer narrowed since the repair a854d97; the index still is, which is the identity
+    for every vector of at most 65 536 cells, i.e. for everything `set_value`/`unset_value` can build) -/
+def extendsLoop (self valuation : PartialVal) : Bool :=
+  (List.range valuation.length).all fun index =>
+    let x := u16 index
     let expected := get valuation x
     !(expected.isSome && get self x != expected)
+
+def extAux : PartialVal → PartialVal → Bool
+  | _, [] => true
+  | [], e :: vs => e.isNone && extAux [] vs
+  | s :: ss, e :: vs => (e.isNone || s == e) && extAux ss vs
+
+/-- `BddPartialValuation::extends`, walking both vectors at once (`= extendsLoop`) -/
+def extends_ (self valuation : PartialVal) : Bool :=
+  if valuation.length ≤ 65536 then extAux self valuation else extendsLoop self valuation
 
 /-- `From<BddValuation> for BddPartialValuation` -/
 def ofTotal (v : TotalVal) : PartialVal := v.map some
 
-/-- `TryFrom<BddPartialValuation> for BddValuation`: `none` is `Err(())`. The result has
-    `value.0.len() as u16` variables. -/
-def toTotal (p : PartialVal) : Option TotalVal :=
-  (List.range (u16 p.length)).mapM fun x => get p x
+/-- `TryFrom<BddPartialValuation> for BddValuation`, literally: `none` is `Err(())`;
+    `u16::try_from(len)` must succeed (else `Err`), the result has `len` variables, every one of which
+    must be fixed -/
+def toTotalLoop (p : PartialVal) : Option TotalVal :=
+  if p.length ≤ 65535 then (List.range (u16 p.length)).mapM fun x => get p x else none
+
+def allSome : PartialVal → Option TotalVal
+  | [] => some []
+  | none :: _ => none
+  | some b :: cs => (allSome cs).map (b :: ·)
+
+/-- `TryFrom<BddPartialValuation> for BddValuation` in one pass (`= toTotalLoop`) -/
+def toTotal (p : PartialVal) : Option TotalVal := if p.length ≤ 65535 then allSome p else none
 
 end PartialVal
 
@@ -115,13 +144,22 @@ namespace TotalVal
 /-- `BddValuation::num_vars`: `self.0.len() as u16` -/
 def numVars (v : TotalVal) : Nat := u16 v.length
 
-/-- `BddValuation::extends`: `for var_id in 0..self.num_vars()`; cells of the partial valuation at or
-    beyond `num_vars` are not looked at -/
-def extends_ (self : TotalVal) (valuation : PartialVal) : Bool :=
+/-- `BddValuation::extends`, literally: `for var_id in 0..self.num_vars()`; cells of the partial
+    valuation at or beyond `num_vars` are not looked at -/
+def extendsLoop (self : TotalVal) (valuation : PartialVal) : Bool :=
   (List.range (numVars self)).all fun x =>
     match PartialVal.get valuation x with
     | some value => value == self.getD x false
     | none => true
+
+def extAux : TotalVal → PartialVal → Bool
+  | [], _ => true
+  | _ :: _, [] => true
+  | s :: ss, e :: vs => (match e with | some b => b == s | none => true) && extAux ss vs
+
+/-- `BddValuation::extends` walking both vectors at once (`= extendsLoop`) -/
+def extends_ (self : TotalVal) (valuation : PartialVal) : Bool :=
+  extAux (self.take (numVars self)) valuation
 
 /-- `BddValuation::to_values` -/
 def toValues (v : TotalVal) : List (Nat × Bool) := (List.range v.length).map fun i => (i, v.getD i false)
@@ -141,12 +179,16 @@ def toBdd (v : TotalVal) : Arr := pushDown v (numVars v) (mkTrue (numVars v))
 
 end TotalVal
 
+end B.Val
+
 /-! ### Comparators (`_impl_sort.rs`) -/
+namespace B.Cmp
+open B.Count
 
 /-- `cmp_size` -/
 def cmpSize (a b : Arr) : Ordering := compare a.size b.size
 
-/-- `cmp_cardinality`: a panic of `exact_cardinality` propagates -/
+/-- `cmp_cardinality`: `a.exact_cardinality().cmp(&b.exact_cardinality())`, a panic propagates -/
 def cmpCardinality (a b : Arr) : Outcome Ordering :=
   (exactCardO a).bind fun x => (exactCardO b).bind fun y => .ok (compare x y)
 
@@ -190,4 +232,4 @@ def cmpNodes : List Node → List Node → Ordering
 /-- `cmp_structural` -/
 def cmpStructural (a b : Arr) : Ordering := cmpNodes a.toList b.toList
 
-end B
+end B.Cmp
